@@ -23,7 +23,8 @@ EXTRA_CMDS = ["(get-model)", "(get-value (x0))", "(get-unsat-core)", "(get-proof
               "(declare-sort P 1)", "(declare-fun a4 () (P Int))", "(declare-fun a5 () P)", "(assert (= x0 (div x0)))", "(assert (= x0 (div x0 2 3)))",
               "(assert (= x0 (mod x0)))", "(assert (= x0 (- x0)))", "(assert (= x0 (/ x0)))", "(set-option :random-seed -7)", "(set-option :random-seed 0)",
               "(echo \"x\\y\")", "(echo \"a\\\\b\")", "(assert (= x0 007))", "(assert (= x0 -0))", "(assert (> x0 00.50))", "(assert (= x0 1/00))",
-              "(get-value ((! b0 :named vv)))", "(assert (forall ((y Int)) true))", "(assert (let ((true false)) true))", "(declare-fun x0 () Bool)",
+              "(get-value ((! b0 :named vv)))", "(assert (= (mod 5 0) 1))", "(assert (= (div 5 0) 1))", "(assert (= (/ 5 0) 1))", "(assert (= (mod 0 0) 0))",
+              "(assert (= x0 (mod (- 7) 0)))", "(assert (= (/ 5.0 0.0) 1.0))", "(assert (forall ((y Int)) true))", "(assert (let ((true false)) true))", "(declare-fun x0 () Bool)",
               "(declare-fun |a b| () Int)", "(declare-fun |a b| () Bool)", "(assert (as |a b| Bool))", "(push 100000)", "(check-sat-assuming ())"]
 
 
